@@ -74,6 +74,48 @@ func H_C01_ballast() {
 	zz.Assert(frameOK(out, "8", "9", "35", "10", []byte("FIX.4.4"), []byte("0")), "C01: framing/BodyLength/CheckSum wrong (ballast)")
 }
 
+// H_C01_count: a repeating group whose number of entries, and number of entries that carry a field,
+// sit on either side of a digit-count boundary (9/10, 99/100). Entries listed as blank get no
+// field at all. params: [entries, blankFrom, blankTo (entries blankFrom..blankTo-1 stay blank), nested]
+func H_C01_count() {
+	n, b0, b1 := zz.Param(0), zz.Param(1), zz.Param(2)
+	g := fix.NewGroup("268",
+		fix.NewKeyValue("269", &fix.String{}),
+		fix.NewKeyValue("270", &fix.Int{}),
+	)
+	sym := zz.Byte()
+	zz.Assume(sym != 1)
+	for e := 0; e < n; e++ {
+		entry := g.AsTemplate()
+		if e < b0 || e >= b1 {
+			_ = entry[0].(*fix.KeyValue).Load().Set(string([]byte{'a' + byte(e%26), sym}))
+			if e%3 == 0 {
+				_ = entry[1].(*fix.KeyValue).Load().Set(e)
+			}
+		}
+		g.AddEntry(entry)
+	}
+	var body fix.Items
+	if zz.Param(3) == 1 {
+		outer := fix.NewGroup("146", fix.NewKeyValue("55", &fix.String{}), g)
+		oe := outer.AsTemplate()
+		_ = oe[0].(*fix.KeyValue).Load().Set("S")
+		oe[1] = g
+		outer.AddEntry(oe)
+		body = fix.Items{outer}
+	} else {
+		body = fix.Items{g}
+	}
+	m := fix.NewMessage("8", "9", "10", "35", "FIX.4.4", "W").
+		SetHeader(fix.NewComponent(fix.NewKeyValue("34", fix.NewInt(7)))).
+		SetBody(body...).
+		SetTrailer(fix.NewComponent())
+	out, err := m.ToBytes()
+	zz.Assert(err == nil, "C01: ToBytes returned an error")
+	zz.Reach("serialized")
+	zz.Assert(frameOK(out, "8", "9", "35", "10", []byte("FIX.4.4"), []byte("W")), "C01: framing/BodyLength/CheckSum wrong (group count on a digit boundary)")
+}
+
 // H_C01_lowsum: reachability witness - checksums below 100 and below 10 are inside the explored space.
 // params: [want]  (0: "00x", 1: "0xx")
 func H_C01_lowsum() {
